@@ -45,6 +45,9 @@ def as_window(t):
         if lo and hi:
             return {"src": it, "lo": lo[0], "lo_incl": lo[1], "hi": hi[0], "hi_incl": hi[1]}
         return None
+    bis = _bisect_window(t)
+    if bis is not None:
+        return bis
     if not (t[0] == "call" and t[1].endswith("takewhile") and len(t[2]) == 2):
         return None
     tw_pred, inner = t[2]
@@ -67,6 +70,41 @@ def as_window(t):
     if up is None or low is None or up[0] != "upper" or low[0] != "lower":
         return None
     return {"src": src, "lo": low[1], "lo_incl": low[2], "hi": up[1], "hi_incl": up[2]}
+
+
+def _bisect_window(t):
+    """(PositionWithSiteId(i + 1 + shift, XS[i]) for i in range(bisect_X(XS, L), bisect_Y(XS, H)))  over a sorted XS:
+       bisect_left(XS, L) is the first index with XS[i] >= L (inclusive lower end), bisect_right the first with XS[i] > L;
+       as upper limit, bisect_right(XS, H) keeps XS[i] <= H (inclusive), bisect_left keeps XS[i] < H (exclusive)"""
+    if not (t[0] == "comp" and len(t[3]) == 1 and not t[3][0][1]):
+        return None
+    it = t[3][0][0]
+    if not (it[0] == "call" and it[1] == "range" and len(it[2]) == 2 and not it[3]):
+        return None
+    b_lo, b_hi = it[2]
+
+    def parse(b):
+        if b[0] == "call" and b[1].split(".")[-1] in ("bisect_left", "bisect_right", "bisect") and len(b[2]) == 2:
+            return b[1].split(".")[-1], b[2][0], b[2][1]
+        return None
+    lo, hi = parse(b_lo), parse(b_hi)
+    if lo is None or hi is None or lo[1] != hi[1]:
+        return None
+    xs = lo[1]
+    elt = t[2]
+    bvs = [x for x in T.subterms(elt) if x[0] == "bv"]
+    if not bvs or elt[0] != "new":
+        return None
+    i = bvs[0]
+    a = dict(elt[2])
+    owner = xs[1] if xs[0] == "attr" and xs[2] == "positions" else None
+    ok_elt = owner is not None and a.get("position") == T.mk_idx(xs, i) and \
+        a.get("siteId") == T.p_add(T.p_add(i, C(1)), T.mk_attr(owner, "shift"))
+    if not ok_elt:
+        return None
+    # same source as owner.getPositionsWithSiteIds(): expressed as that call so the caller's source test applies
+    src = ("app", "src.correlation.optical_map:OpticalMap.getPositionsWithSiteIds", owner, ())
+    return {"src": src, "lo": lo[2], "lo_incl": lo[0] == "bisect_left", "hi": hi[2], "hi_incl": hi[0] in ("bisect_right", "bisect")}
 
 
 def _bound(c, xpos):
